@@ -432,7 +432,7 @@ Qed.
 (* ---- substitution of uses: syntactic facts *)
 Lemma uses_sb_p d w p : uses_p (sb_p d w p) = map (sbv d w) (uses_p p).
 Proof.
-  destruct p as [z|k a b|rs|s i|sz|s sz]; cbn [uses_p sb_p map]; try reflexivity.
+  destruct p as [z|k a b|rs|s i|sz|s sz|lm lix]; cbn [uses_p sb_p map]; try reflexivity.
   - induction rs as [|l rs IH]; [reflexivity|]. cbn [map flat_map fst snd]. rewrite map_app, IH.
     f_equal. rewrite !map_map. reflexivity.
   - induction sz as [|x sz IH]; [reflexivity|]. cbn [map flat_map]. rewrite map_app, IH. f_equal. destruct x; reflexivity.
@@ -543,7 +543,7 @@ Proof.
   unfold move_dim in Hr.
   destruct o as [| |iv lb ub st body]; try discriminate.
   destruct (split_at j body) as [[[pre x] post]|] eqn:Esp; [|discriminate].
-  destruct x as [d p| |]; try discriminate. destruct p as [| | |src idx| |]; try discriminate.
+  destruct x as [d p| |]; try discriminate. destruct p as [| | |src idx| | |]; try discriminate.
   apply split_at_spec in Esp as [-> _].
   set (Sin := defs_top pre) in *.
   destruct (cst_of (Sin ++ Sc) idx) as [iz|] eqn:Eidx; [|discriminate].
@@ -800,7 +800,7 @@ Qed.
 
 Lemma rewrite_in_facts args r path b b' :
   wf_prog args b = true -> rewrite_in args r path b = Some b' ->
-  (forall e, trace b' e = trace b e) /\ wf_prog args b' = true.
+  (forall e h, trace b' e h = trace b e h) /\ wf_prog args b' = true.
 Proof.
   intros Hwf Hr. unfold wf_prog in Hwf. apply andb_true_iff in Hwf as [Hw Hn]. apply nodupb_NoDup in Hn.
   unfold rewrite_in in Hr. set (fresh := fresh_for args b) in *.
@@ -811,7 +811,7 @@ Proof.
   assert (Hnb : NoDup (alldefs b)) by (apply (NoDup_app_r _ _ Hn)).
   assert (Hdj : disj args (alldefs b)) by (intros v Hv; apply (NoDup_app_disj _ _ _ Hn Hv)).
   split.
-  - intros e. apply (apply_at_trace _ fresh (apply_rule_sound r fresh) path args [] b b' e); try assumption.
+  - intros e h. apply (apply_at_trace _ fresh (apply_rule_sound r fresh) path args [] b b' e h); try assumption.
     + intros v p0 [].
     + intros v p0 [].
   - destruct (apply_at_wf _ fresh (apply_rule_wf r fresh) path args [] b b') as (H1 & H2 & H3); try assumption.
@@ -826,12 +826,12 @@ Qed.
 Theorem rewrite_seq_in_trace steps : forall args b b',
   wf_prog args b = true ->
   rewrite_seq_in args steps b = Some b' ->
-  (forall e, trace b' e = trace b e) /\ wf_prog args b' = true.
+  (forall e h, trace b' e h = trace b e h) /\ wf_prog args b' = true.
 Proof.
   induction steps as [|[r path] rest IH]; intros args b b' Hwf H; cbn [rewrite_seq_in] in H.
   - inversion H; subst. split; [reflexivity|exact Hwf].
   - destruct (rewrite_in args r path b) as [b1|] eqn:Hr; [|discriminate].
     destruct (rewrite_in_facts args r path b b1 Hwf Hr) as [Ht1 Hwf1].
     destruct (IH args b1 b' Hwf1 H) as [Ht2 Hwf2].
-    split; [intros e; rewrite Ht2, Ht1; reflexivity|exact Hwf2].
+    split; [intros e h; rewrite Ht2, Ht1; reflexivity|exact Hwf2].
 Qed.
